@@ -748,7 +748,7 @@ def run(ctx):
 
     import time as _t
     t_impl = _t.time() - ctx.t0
-    failing, err = vlib.run_cases(ctx, 'mma', HEADER, checks, chunk=6 if quick else 10, timeout=1500)
+    failing, err = vlib.run_cases(ctx, 'mma', HEADER, checks, chunk=6 if quick else 10, timeout=500 if quick else 1500)
     ctx.extra['seconds'] = dict(static_translator_props_and_implementation_runs=round(t_impl, 1), coq_case_files=round(_t.time() - ctx.t0 - t_impl, 1))
     ctx.obligation('correspondence:case files evaluated', 'correspondence', not err, err)
     if err:
@@ -756,8 +756,8 @@ def run(ctx):
     for pos, idx in enumerate(failing[:12]):
         aspects, pre, items = parts[idx]
         vals = None
-        if pos < 3:          # which aspect of the case fails (a second, small evaluation; only for the first few)
-            vals, e2 = vlib.eval_coq(ctx, f'fail{idx}', HEADER, [pre + '[' + '; '.join(x for _, x in items) + ']'])
+        if pos < 2:          # which aspect of the case fails (a second, small evaluation; only for the first few)
+            vals, e2 = vlib.eval_coq(ctx, f'fail{idx}', HEADER, [pre + '[' + '; '.join(x for _, x in items) + ']'], timeout=150)
         which = aspects
         if vals:
             bl = vals[0].strip('[] ').split(';')
